@@ -92,10 +92,13 @@ func (n *NetID) UnmarshalBinary(data []byte) error {
 		return fmt.Errorf("lorawan: %d bytes of data are expected", len(n))
 	}
 
+	// via a temporary: data may overlap the receiver (n.UnmarshalBinary(n[:]))
+	var tmp NetID
 	for i, v := range data {
 		// little endian
-		n[len(n)-1-i] = v
+		tmp[len(n)-1-i] = v
 	}
+	*n = tmp
 
 	return nil
 }
